@@ -150,6 +150,27 @@ def run_e1(
             )
         else:
             out.harness_errors.append(f"{o.name}: solver counterexample {o.cex!r} did not reproduce on CPython ({detail})")
+    # model fidelity: CrossHair replaces parts of the library by models (it skips functools caches, models codecs, struct, ...).
+    # Every confirmed obligation's reachability twin was refuted with concrete arguments on which the harness returned True under
+    # CrossHair; the same arguments are run on plain CPython - if the harness does not hold there, model and real code differ on a
+    # real input, which is a (replayed) violation of the property.
+    from concurrent.futures import ThreadPoolExecutor
+
+    todo = [(o, twins[o.name]) for o in obligations if o.kind == "core" and o.status == "confirmed" and twins.get(o.name) is not None
+            and twins[o.name].status == "refuted" and twins[o.name].cex is not None]
+    fidelity = 0
+    with ThreadPoolExecutor(max_workers=12) as ex:
+        for (o, t), (bad, detail) in zip(todo, ex.map(lambda ot: replay_e1(ot[0].module_src, ot[1].cex), todo)):
+            fidelity += 1
+            if bad and "replay runner crashed" not in detail:
+                discharged -= 1
+                out.violations.append(
+                    Violation(
+                        signature=signature(o, t.cex, detail),
+                        what=f"{o.name}: args={t.cex!r}: {detail} (on plain CPython; CrossHair's library models hid it - e.g. a memoising cache, which CrossHair bypasses)",
+                        replay={"engine": "E1", "module_src": o.module_src, "args_py": repr(t.cex), "obligation": o.name},
+                    )
+                )
     core = [o for o in obligations if o.kind == "core"]
     samples = []
     for o in (core[:2] + [x for x in obligations if x.kind == "hunt"][:1] + summ.refuted[:2]):
@@ -175,6 +196,7 @@ def run_e1(
         "hunting_paths": summ.hunt_paths,
         "vacuity_twins": len(twins),
         "vacuity_twins_refuted": twins_ok,
+        "model_fidelity_runs": fidelity,
         "paths_explored": summ.paths,
         "solver_cpu_s": round(summ.solver_s, 1),
         "evaluations": summ.paths,
